@@ -1508,7 +1508,7 @@ func (self *LockDB) GetLockManager(command *protocol.LockCommand) *LockManager {
 		if fastLockManager != nil && fastLockManager.lockKey == command.LockKey && atomic.LoadUint32(&fastLockManager.refCount) != 0xffffffff {
 			return fastLockManager
 		}
-		if atomic.LoadUint32(&fastValue.count) <= 1 {
+		if atomic.LoadUint32(&fastValue.count) <= 1 && fastLockManager != nil && atomic.LoadUint32(&fastValue.lock) == 2 && fastValue.manager == fastLockManager {
 			return nil
 		}
 	} else if fastValueLock == 1 {
@@ -1523,7 +1523,7 @@ func (self *LockDB) GetLockManager(command *protocol.LockCommand) *LockManager {
 		if fastLockManager != nil && fastLockManager.lockKey == command.LockKey && atomic.LoadUint32(&fastLockManager.refCount) != 0xffffffff {
 			return fastLockManager
 		}
-		if atomic.LoadUint32(&fastValue.count) <= 1 {
+		if atomic.LoadUint32(&fastValue.count) <= 1 && fastLockManager != nil && atomic.LoadUint32(&fastValue.lock) == 2 && fastValue.manager == fastLockManager {
 			return nil
 		}
 	} else if atomic.LoadUint32(&fastValue.count) == 0 {
